@@ -18,10 +18,60 @@ type vnT struct {
 	S string `json:"s"`
 }
 
+// marshalers that return whatever the harness put in c03Raw
+var c03Raw []byte
+
+type vmJ struct{ A int }
+
+func (vmJ) MarshalJSON() ([]byte, error) { return c03Raw, nil }
+
+type vmT struct{ A int }
+
+func (vmT) MarshalText() ([]byte, error) { return c03Raw, nil }
+
+type vmHolder struct {
+	S string `json:"s"`
+	J vmJ    `json:"j"`
+}
+
+type vmTHolder struct {
+	T vmT         `json:"t"`
+	M map[vmT]int `json:"m"`
+}
+
 // leaf values that must either be emitted as valid JSON or make Marshal fail:
 // json.Number with every N-byte content; non-finite floats.
 func H_C03_leaves(t *verifrt.T) {
-	switch t.Choice("leaf", 3) {
+	switch t.Choice("leaf", 5) {
+	case 3:
+		// MarshalJSON returning arbitrary bytes: success only with one valid JSON text
+		n := t.Param("MN")
+		c03Raw = t.Bytes("raw", t.Choice("len", n+1))
+		var out []byte
+		var err error
+		if t.Choice("pos", 2) == 0 {
+			out, err = Marshal(vmJ{})
+		} else {
+			out, err = Marshal(&vmHolder{S: "x"})
+		}
+		if err == nil {
+			ok := verifref.ValidJSON(out, verifref.Relax{})
+			t.Assert("accepted-marshaler-output-gives-valid-json", ok)
+			t.Cover("marshaler-accepted", ok)
+		} else {
+			t.Cover("marshaler-rejected", true)
+		}
+		c03Raw = nil
+	case 4:
+		// MarshalText returning arbitrary bytes is always emitted as a valid string / key
+		n := t.Param("MN")
+		c03Raw = t.Bytes("raw", t.Choice("len", n+1))
+		out, err := Marshal(&vmTHolder{M: map[vmT]int{{}: 1}})
+		t.Assert("text-marshaler-never-fails", err == nil)
+		if err == nil {
+			t.Assert("text-marshaler-output-gives-valid-json", verifref.ValidJSON(out, verifref.Relax{}))
+		}
+		c03Raw = nil
 	case 0:
 		n := t.Param("N")
 		num := t.String("num", t.Choice("len", n+1))
